@@ -1,6 +1,7 @@
 #!/usr/bin/env python3
 """Shared machinery: harness build, TLA+ constant generation, TLC invocation, edge replay,
 trace validation, evidence files.  Everything runs offline from /verif against /repo."""
+import threading
 import json, os, re, subprocess, sys, time, shutil, hashlib
 
 VERIF = os.path.dirname(os.path.dirname(os.path.abspath(__file__)))
@@ -218,9 +219,21 @@ CONSTANT Bug <- BugDef
 def run_tlc(wd, module, workers=8, timeout=600, heap="8g", simulate=None, depth=None,
             env_extra=None, deque=False, coverage=False, stdout_path=None):
     """Runs TLC on wd/module.tla with wd/module.cfg.  Returns dict(stdout_path, rc, stats...)."""
+    # several TLC runs may share one work directory (instances explored in parallel): never rewrite a module another run
+    # may be reading - skip identical files, and replace changed ones atomically
     for f in os.listdir(SPEC):
         if f.endswith(".tla"):
-            shutil.copy(os.path.join(SPEC, f), os.path.join(wd, f))
+            src, dst = os.path.join(SPEC, f), os.path.join(wd, f)
+            data = open(src, "rb").read()
+            try:
+                if open(dst, "rb").read() == data:
+                    continue
+            except OSError:
+                pass
+            tmp = "%s.%d.%d.tmp" % (dst, os.getpid(), threading.get_ident())
+            with open(tmp, "wb") as g:
+                g.write(data)
+            os.replace(tmp, dst)
     meta = os.path.join(wd, "meta_" + module)
     shutil.rmtree(meta, ignore_errors=True)
     jopts = "-Xss1g"
